@@ -136,7 +136,19 @@ Inductive bop :=
 | AddWithdrawalScript (src : ssrc) (r : option rdm)
 | AddCertificateScript (src : ssrc) (r : option rdm)
 | AddCert (c : bytes)                                 (* certificates.append(c), c = the certificate's CBOR *)
-| AddOutputDatum (d : datum).                         (* add_output(o, datum=d, add_datum_to_witness=True) *)
+| AddOutputDatum (d : datum)                          (* add_output(o, datum=d, add_datum_to_witness=True) *)
+| AddCollateral (u : utxo)                            (* builder.collaterals.append(u): no function of this slice reads the
+                                                         collateral list — in particular a script carried by a collateral UTxO
+                                                         is NOT a script the transaction can resolve (only spent and reference
+                                                         inputs are), so it never stands in for a witness script *)
+| AddReferenceInput (u : utxo)                        (* builder.reference_inputs.add(u) by the caller: a read-only reference
+                                                         input (an oracle / configuration UTxO).  It joins the body's reference
+                                                         inputs (ro_refs below) and nothing else: a script it happens to carry
+                                                         is not registered in _reference_scripts, is not one of all_scripts and
+                                                         contributes no language view *)
+| AddOutputDatumHashOnly (d : datum).                 (* add_output(o, datum=d) with add_datum_to_witness=False (the default):
+                                                         the output gets the hash; builder.datums is NOT touched, in particular
+                                                         an equal datum registered earlier for a spent input stays *)
 
 Record bstate := mkB {
   b_inputs : list utxo;
@@ -272,6 +284,9 @@ Definition bstep (st : bstate) (op : bop) : result bstate :=
   | AddOutputDatum d =>
       Ok (mkB (b_inputs st) (b_in_rdm st) (b_in_scr st) (b_mint st) (b_wdrl st) (b_cert st)
               (b_refin st) (b_refscr st) (aset bytes_eqb (b_datums st) (d_hash d) d) (b_native st) (b_certs st) (b_est st))
+  | AddOutputDatumHashOnly _ => Ok st
+  | AddCollateral _ => Ok st
+  | AddReferenceInput _ => Ok st
   end.
 
 (* run the calls; the number of calls done is reported with an error *)
@@ -422,6 +437,12 @@ Definition build (st0 : bstate) (a : bargs) : result built :=
                 (redeemer_list st)
                 (bucket LNative ws) (bucket LV1 ws) (bucket LV2 ws) (bucket LV3 ws)
                 (map snd (b_datums st)) st))).
+
+(* the read-only reference inputs the caller added; the body's field 18 is the set union of t_refin and these *)
+Definition ro_refs (ops : list bop) : list utxo :=
+  flat_map (fun op => match op with AddReferenceInput u => [u] | _ => [] end) ops.
+Definition body_refin (t : built) (ops : list bop) : list txin :=
+  t_refin t ++ filter (fun i => negb (existsb (txin_eqb i) (t_refin t))) (map u_in (ro_refs ops)).
 
 Definition run_build (native : list script) (ops : list bop) (a : bargs) : result built :=
   bind (run native ops) (fun st => build st a).
